@@ -8,4 +8,4 @@ l=importlib.machinery.SourceFileLoader("chk","/verif/check"); m=importlib.util.m
 os.makedirs("/verif/out/DEV",exist_ok=True); m.ensure_engine(); m.build_overlay("/verif/out/DEV",False)
 PY
 calib=""; [ -f out/C01/calib.json ] && calib="-calib out/C01/calib.json"
-./bin/gosym -repo /repo -overlay out/DEV/overlay.json -redirects harness/redirects.json -known known_findings.json $calib -pkg github.com/openconfig/gribigo/$pkg -harness github.com/openconfig/gribigo/$pkg.$h -out out/DEV/engine-$h.json "$@" 2>&1 | grep -E "paths=|assert |rror|panic|unsupported" | cut -c1-300 | head -60
+./bin/gosym -repo /repo -overlay out/DEV/overlay.json -redirects harness/redirects.json -known known_findings.json $calib -pkg github.com/openconfig/gribigo/$pkg -harness github.com/openconfig/gribigo/$pkg.$h -out out/DEV/engine-$h.json "$@" 2>&1 | grep -E "paths=|assert |rror|panic|unsupported" | cut -c1-300 | head -${HEADN:-60}
